@@ -103,21 +103,44 @@ def membersOf (U : Units) (p : Nat) : List Nat :=
   | .oneOf ms => ms
   | .all ms => ms
 
-def unplanMembers (U : Units) (p : Nat) : CState → List Nat → List Bool → CState
+/-- as it was until E16 was repaired: goes on after a rejected member (and the unit-level result is `true`) -/
+def unplanMembersGiven (U : Units) (p : Nat) : CState → List Nat → List Bool → CState
   | s, [], _ => s
   | s, m :: ms, bits =>
     if isPlanned U s m then
       let b := bits.headD true
       let (s', r) := unplanStops U s m b
       let s'' := if r then s' else { s' with planned := add s'.planned p, unplanned := rem s'.unplanned p }
-      unplanMembers U p s'' ms bits.tail
-    else unplanMembers U p s ms bits
+      unplanMembersGiven U p s'' ms bits.tail
+    else unplanMembersGiven U p s ms bits
 
-/-- `solutionPlanUnitsUnitImpl.UnPlan` on units-unit `p` (returns true whatever happens inside). -/
-def unplanUnits (U : Units) (s : CState) (p : Nat) (bits : List Bool) : CState × Bool :=
+def unplanUnitsGiven (U : Units) (s : CState) (p : Nat) (bits : List Bool) : CState × Bool :=
   if !(isPlanned U s p) || isFixed U p then (s, false) else
   let s1 := { s with planned := rem s.planned p, unplanned := add s.unplanned p }
-  (unplanMembers U p s1 (membersOf U p) bits, true)
+  (unplanMembersGiven U p s1 (membersOf U p) bits, true)
+
+/-- the planned members are un-planned one after the other; `none`: a member's un-plan was rejected -/
+def unplanMembers (U : Units) (p : Nat) : CState → List Nat → List Bool → Option CState
+  | s, [], _ => some s
+  | s, m :: ms, bits =>
+    if isPlanned U s m then
+      let b := bits.headD true
+      let (s', r) := unplanStops U s m b
+      if r then unplanMembers U p s' ms bits.tail else none
+    else unplanMembers U p s ms bits
+
+/-- `solutionPlanUnitsUnitImpl.UnPlan` on units-unit `p`. A plan-all unit is un-planned as a whole or not at all: when a
+member's un-plan is rejected the members un-planned before are planned again where they were (last one first) and the
+result is `false` — the state is the one before the call. A one-of unit has one planned member; nothing to roll back. -/
+def unplanUnits (U : Units) (s : CState) (p : Nat) (bits : List Bool) : CState × Bool :=
+  if !(isPlanned U s p) || isFixed U p then (s, false) else
+  match kindOf U p with
+  | .all _ =>
+    let s1 := { s with planned := rem s.planned p, unplanned := add s.unplanned p }
+    match unplanMembers U p s1 (membersOf U p) bits with
+    | some s' => (s', true)
+    | none => (s, false)
+  | _ => unplanUnitsGiven U s p bits
 
 /-- `SolutionVehicle.Unplan` with the (non-fixed) stops-units `us` of that vehicle. As repaired
 (KNOWN_FINDINGS `fixed: property=C08`): the ROOT unit of every stops-unit is filed, and a rolled
